@@ -52,6 +52,7 @@ INDEX = {
  ]},
  "C09": {"package": "./roaring", "harnesses": [
    {"name": "VerifH09OpLogCrash", "common": {"max_depth": 3000}, "quick": {"bounds": {"steps": 2, "ops": 4, "keys": 1}}, "thorough": {"bounds": {"steps": 2, "ops": 4, "keys": 2}}},
+   {"name": "VerifH09TranslateCrash", "package": ".", "common": {"max_depth": 3000}, "quick": {"bounds": {"batches": 2, "keys": 1, "keylen": 1, "xxhash_values": 2}}, "thorough": {"bounds": {"batches": 2, "keys": 2, "keylen": 2, "xxhash_values": 3}}},
    {"name": "VerifH09FragmentCrash", "package": ".", "common": {"max_depth": 3000}, "quick": {"bounds": {"steps": 2, "ops": 8, "rows": 2}}, "thorough": {"bounds": {"steps": 2, "ops": 8, "rows": 4}}},
    {"name": "VerifH09MutexCrash", "package": ".", "common": {"max_depth": 3000}, "quick": {"bounds": {"steps": 2, "ops": 4, "rows": 2}}, "thorough": {"bounds": {"steps": 3, "ops": 4, "rows": 3}}},
  ]},
